@@ -410,17 +410,26 @@ class Walker:
             raise MachineryError(f"walker root exited with status {st}")
 
     def children(self, sess, sid, depth, path, prev, tag):
-        """Called holding a token; releases it, forks the children, waits."""
+        """Called holding a token.  Plan items that are not `inline` get a
+        forked copy of this process each (they need the state as it is now);
+        inline items are then executed one after the other in this process
+        (their path records what really ran before them)."""
         items = self.plan(sid, depth, path, tag)
         self.sem.release()
         pids = []
-        for (c, o, q, expand, tag2) in items:
+        for (c, o, q, expand, tag2, inline) in items:
+            if inline:
+                continue
             self.sem.acquire()
             pid = os.fork()
             if pid == 0:
                 code = 0
                 try:
-                    self.node(sess, sid, c, o, q, expand, depth, path, prev, tag2)
+                    path2, prev2 = self.edge(sess, sid, c, o, q, path, prev)
+                    if expand:
+                        self.children(sess, q, depth + 1, path2, prev2, tag2)
+                    else:
+                        self.sem.release()
                 except BaseException:  # noqa: BLE001
                     import traceback
                     try:
@@ -431,15 +440,31 @@ class Walker:
                     code = 3
                 os._exit(code)
             pids.append(pid)
+        inl = [it for it in items if it[5]]
+        if inl:
+            self.sem.acquire()
+            cur = sid
+            for k, (c, o, q, expand, tag2, _) in enumerate(inl):
+                path, prev = self.edge(sess, cur, c, o, q, path, prev)
+                cur = q
+                depth += 1
+                if expand:
+                    if k != len(inl) - 1:
+                        raise MachineryError("only the last inline item may be expanded")
+                    self.children(sess, q, depth, path, prev, tag2)   # releases the token
+                    break
+            else:
+                self.sem.release()
         bad = 0
         for pid in pids:
             _, st = os.waitpid(pid, 0)
             if st != 0:
                 bad += 1
         if bad:
-            self.emit({"t": "crash", "what": f"{bad} child processes failed below {path}"})
+            self.emit({"t": "crash", "what": f"{bad} child processes failed below {len(path)} commands"})
 
-    def node(self, sess, sid, c, o, q, expand, depth, path, prev, tag):
+    def edge(self, sess, sid, c, o, q, path, prev):
+        """Execute one command on the live interpreters and compare."""
         g = self.g
         b = g.binding(sid, c)
         src = cmd_source(c, b)
@@ -461,10 +486,7 @@ class Walker:
                                            f"{raw if raw else 'succeeded'}"))
         n = 1 + self.check_state(sess, q, path2, findings)
         self.emit({"t": "n", "edges": 1, "evals": n})
-        if expand:
-            self.children(sess, q, depth + 1, path2, (c, raw), tag)
-        else:
-            self.sem.release()
+        return path2, (c, raw)
 
     def check_state(self, sess, sid, path, findings):
         g = self.g
@@ -508,18 +530,32 @@ def cover_plan(g, root):
                 tree.add((s, k))
                 queue.append(q)
 
+    def chain(sid, passes):
+        """every self-loop command of sid in this process, a failing one
+        repeated at once; `passes` times so that each follows each."""
+        items = []
+        for _ in range(passes):
+            for (c, o, q) in g.out[sid]:
+                if q == sid:
+                    items.append((c, o, q, False, None, True))
+                    if o["cls"] != "val":
+                        items.append((c, o, q, False, None, True))
+        return items
+
     def plan(sid, depth, path, tag):
-        if tag == "after-failure":
-            return [(c, o, q, False, None) for (c, o, q) in g.out[sid]]
+        if tag == "chain-only":
+            return chain(sid, 1)
         items = []
         for k, (c, o, q) in enumerate(g.out[sid]):
+            if q == sid:
+                continue
             if (sid, k) in tree:
-                items.append((c, o, q, True, None))
+                items.append((c, o, q, True, None, False))
             elif o["cls"] != "val":
-                items.append((c, o, q, True, "after-failure"))
+                items.append((c, o, q, True, "chain-only", False))
             else:
-                items.append((c, o, q, False, None))
-        return items
+                items.append((c, o, q, False, None, False))
+        return items + chain(sid, 2)
     return plan, len(seen)
 
 
@@ -527,7 +563,7 @@ def depth_plan(g, maxlen):
     def plan(sid, depth, path, tag):
         if depth >= maxlen:
             return []
-        return [(c, o, q, depth + 1 < maxlen, None) for (c, o, q) in g.out[sid]]
+        return [(c, o, q, depth + 1 < maxlen, None, False) for (c, o, q) in g.out[sid]]
     return plan
 
 
@@ -561,8 +597,9 @@ def walks_plan(g, root, rng, nwalks, maxlen):
         for p in path:
             k = next(j for j, e in enumerate(g.out[s]) if e[0] == p[0])
             node, s = node[k], g.out[s][k][2]
-        return [(g.out[sid][k][0], g.out[sid][k][1], g.out[sid][k][2], bool(node[k]), None)
-                for k in sorted(node)]
+        ks = sorted(node)
+        return [(g.out[sid][k][0], g.out[sid][k][1], g.out[sid][k][2], bool(node[k]), None, len(ks) == 1)
+                for k in ks]
     return plan
 
 
